@@ -64,6 +64,7 @@ def _wrap1(t):
         yield dict(p="Unitary", A=A, kid=t)
     yield dict(p="Stack", kids=[t, dict(p="L1Reg", lam=0.5)])
     yield dict(p="Stack", kids=[dict(p="L2Proj", eps=1.0), t])
+    yield dict(p="Stack", kids=[t, t], same=True)     # ONE prox object in both slots
 
 
 def programs(depth):
@@ -164,6 +165,8 @@ def build(prog, shape, cplx):
         return sp.prox.Conj(kp), pc.ConjOf(kg), ks
     if P == "Stack":
         built = [build(k, shape, cplx) for k in prog["kids"]]
+        if prog.get("same"):
+            built[1] = built[0]
         shapes = [b[2] for b in built]
         return sp.prox.Stack([b[0] for b in built]), pc.StackOf([b[1] for b in built], shapes), [sum(dense.prod(s) for s in shapes)]
     if P == "Unitary":
@@ -301,12 +304,20 @@ def run_case(case, seed):
         except Skip:
             return dict(states=1, transitions=1, nontrivial=False, outcome="skipped", viol=[])
         n = dense.prod(sh)
+        held = held_copy = None
         for pt in lattice(n, cplx, tier_small=case.get("small", True)):
             y = np.array(pt, dtype=np.complex128 if (cplx or fft_inside) else np.float64).reshape(sh)
             y0 = y.copy()
             x = P(alpha, y)
             evals += 1
             when = "alpha=%s" % alpha
+            # results are values: the array returned by the previous call still holds the previous minimiser
+            if held is not None and ("held", site) not in seen and (held is x or np.asarray(held).tobytes() != held_copy):
+                seen.add(("held", site))
+                viol.append(dict(oracle="earlier-result-changed", key=dict(site=site, when="second call on the same object"),
+                                 detail="the array returned for the previous input was %s by the call for y=%s; program %s" % (
+                                     "returned again (same object)" if held is x else "overwritten", list(pt), prog)))
+            held, held_copy = x, np.asarray(x).tobytes()
             if list(np.asarray(x).shape) != list(sh):
                 if ("shape", site) not in seen:
                     seen.add(("shape", site))
